@@ -28,7 +28,7 @@ fn col(i: usize, name: &str) -> Expr { Expr::Col { i, sql: if QUALIFY.with(|q| q
 
 /// operator names of the physical plan, pre-order (empty on any failure; never panics)
 pub fn plan_ops(cat: &Catalog, sql: &str, cfg: &ExecCfg) -> Vec<String> {
-    let cat2 = Catalog { tables: cat.tables.iter().map(|t| TableSpec { name: t.name.clone(), cols: t.cols.iter().map(|c| ColSpec { name: c.name.clone(), cty: c.cty, null_pct: c.null_pct, boundary: c.boundary, special: c.special, unique: c.unique }).collect(), rows: t.rows.clone(), cuts: t.cuts.clone() }).collect() };
+    let cat2 = Catalog { tables: cat.tables.iter().map(|t| TableSpec { cluster: None, name: t.name.clone(), cols: t.cols.iter().map(|c| ColSpec { name: c.name.clone(), cty: c.cty, null_pct: c.null_pct, boundary: c.boundary, special: c.special, unique: c.unique }).collect(), rows: t.rows.clone(), cuts: t.cuts.clone() }).collect() };
     let sql = sql.to_string();
     let cfg = cfg.clone();
     let r = std::panic::catch_unwind(move || -> Vec<String> {
@@ -120,7 +120,7 @@ fn gen_table(r: &mut Rng, size_classes: &[String]) -> (TableSpec, String) {
         else if class == "big" || class == "huge" { let k = 2 + r.below(5) as usize; let base = n / k; let mut v = vec![base; k]; v[k - 1] += n - base * k; v }
         else { let k = 1 + r.below(4.min(n as u64)) as usize; let base = n / k; let mut v = vec![base; k]; v[k - 1] += n - base * k; v };
     let desc = format!("size:{} knull:{} jnull:{} xnull:{} kty:{} xty:{}{}", class, knull, jnull, xnull, kty.name(), xty.name(), if planted { " planted" } else { "" });
-    (TableSpec { name: "t0".into(), cols, rows, cuts }, desc)
+    (TableSpec { cluster: None, name: "t0".into(), cols, rows, cuts }, desc)
 }
 
 /// the PARALLEL partial-state stratum: an in-memory table cut into 5–12 batches whose aggregated column x0 is NULL in whole
@@ -151,7 +151,7 @@ fn gen_table_par(r: &mut Rng, huge: bool) -> (TableSpec, String) {
         rows.push(vec![Val::I(ids[i]), kv, jv, xv, small_value(r, ColTy::I64, 6)]);
     }
     let desc = format!("size:{} par:{} knull:{} xnull:batches kty:{} xty:{}", if huge { "huge" } else { "par" }, pattern, knull, kty.name(), xty.name());
-    (TableSpec { name: "t0".into(), cols, rows, cuts: vec![per; k] }, desc)
+    (TableSpec { cluster: None, name: "t0".into(), cols, rows, cuts: vec![per; k] }, desc)
 }
 
 /// statements that HashAggregateExec cannot vectorize / stream: global aggregates, or GROUP BY carrying a DISTINCT aggregate
@@ -313,7 +313,7 @@ fn run_both(case: &Value) -> Value {
 fn witness_cases() -> Vec<(Value, Value)> {
     let mk = |n: &str, cty, null_pct| ColSpec { name: n.into(), cty, null_pct, boundary: false, special: false, unique: n == "id0" };
     let table = |kty: ColTy, jty: ColTy, xty: ColTy, rows: Vec<Vec<Val>>, cuts: Vec<usize>| TableSpec {
-        name: "t0".into(), cols: vec![mk("id0", ColTy::I64, 0), mk("k0", kty, 50), mk("j0", jty, 50), mk("x0", xty, 50), mk("y0", ColTy::I64, 0)], rows, cuts };
+        cluster: None, name: "t0".into(), cols: vec![mk("id0", ColTy::I64, 0), mk("k0", kty, 50), mk("j0", jty, 50), mk("x0", xty, 50), mk("y0", ColTy::I64, 0)], rows, cuts };
     let i = |v: i64| Val::I(v); let nl = || Val::Null;
     let sh = |nkeys: usize, aggs: Vec<(AggFn, bool)>, distinct_select: bool, where_kind: &'static str| Shape { nkeys, aggs, distinct_select, where_kind };
     let mut out = vec![];
